@@ -55,7 +55,7 @@ def check(run):
     r = gen.rng_for(run.seed, "c12")
     for i in range(3000 if thorough else 450):
         sp = strgen.build(r, "R%d" % i, ["EnumString"], allow_default=(i % 3 == 0), naming_bias=0.8,
-                          generics_pool=(None, None, "T"), max_n=6)
+                          generics_pool=(None, None, "T", "Tnd"), max_n=6)
         if i % 6 == 5:
             # C12 does not require non-overlapping spellings: a case-sensitive and a case-insensitive variant may share letters;
             # inputs claimed by exactly one of them must still resolve to it
